@@ -3,7 +3,7 @@
 S=$1; shift
 W=/tmp/seedrun/$S
 rm -rf $W; mkdir -p /tmp/seedrun
-git -C /repo worktree add -q --detach $W HEAD || exit 2
+git -C /repo worktree prune; git -C /repo worktree add -q --detach $W HEAD || exit 2
 git -C $W apply /verif/seeded/$S/patch.diff || { echo "patch does not apply"; exit 2; }
 cd /verif
 for P in "$@"; do
